@@ -89,13 +89,15 @@ def build_layouts(layouts, e):
 
 @st.composite
 def st_case(draw):
-    near = draw(st.integers(0, 9)) < 6
+    which = draw(st.integers(0, 9))
+    near = which < 6
+    model_root = which < 2   # the root is a model whose own container shape gets mutated
     near_layouts = {}
     if near:
-        t = draw(GEN_NEAR.strategy())
+        t = draw(GEN_NEAR.model_root_strategy() if model_root else GEN_NEAR.strategy())
         ref_layouts = {}
         for s_ in tspec.walk(t):
-            if s_[0] == "model" and draw(st.integers(0, 2)) == 0:
+            if s_[0] == "model" and draw(st.integers(0, 2 if not (model_root and s_ is t) else 0)) == 0:
                 ms = s_[1]
                 how = draw(st.sampled_from(["as_list", "nested_dict", "forbid"]))
                 in_union = any(u[0] == "union" and any(tspec.strip(c) is s_ or tspec.strip(c) == s_ for c in u[1]) for u in tspec.walk(t))
@@ -107,7 +109,7 @@ def st_case(draw):
                 elif how == "nested_dict":
                     ref_layouts[ms["name"]] = {"paths": {f["n"]: (("outer", tspec.model_key(f["n"])) if i % 2 else
                                                                   (tspec.model_key(f["n"]),)) for i, f in enumerate(ms["fields"])}}
-        datum, ops = draw(soup.st_near_valid(t, layouts=ref_layouts))
+        datum, ops = draw(soup.st_near_valid(t, layouts=ref_layouts, root_structure=model_root))
     else:
         t = draw(GEN.strategy())
         datum, ops = draw(soup.st_soup()), ["soup"]
@@ -152,6 +154,11 @@ def check_case(ctx: runner.Ctx, case):
         ctx.count("recursion_error_skipped")
         return
     except BaseException as ex:  # noqa: BLE001
+        if any(isinstance(n, RecursionError) for n in all_nodes(ex)):
+            # debug_trail=ALL collects the RecursionError of an over-deep datum into the group of an outer model; a str
+            # fed to a recursive list-layout model is infinitely deep ('a'[0] == 'a'): same resource-exhaustion zone
+            ctx.count("recursion_error_skipped")
+            return
         exc = ex
         outcome = "load_error" if valid_load_error(ex) else "violation"
     depth = datum_depth(case["datum"])
@@ -160,7 +167,10 @@ def check_case(ctx: runner.Ctx, case):
              sample={"type": tspec.text(t), "datum": case["datum"], "strict": case["strict"], "debug": case["debug"],
                      "outcome": outcome, "provs": case.get("provs"), "layouts": case.get("layouts")},
              labels=[f"outcome:{outcome}", f"debug:{case['debug']}", f"strict:{case['strict']}", f"top:{t[0]}",
-                     "src:" + ("soup" if case["ops"] == ["soup"] else f"near{min(len(case['ops']), 3)}"),
+                     "src:" + ("soup" if case["ops"] == ["soup"] else "atheris" if case["ops"] == ["atheris"] else
+                               "model_root_structure" if str(case["ops"][:1]).startswith("['root:") else
+                               f"near{min(len(case['ops']), 3)}"),
+                     *[f"layout:{h}" for h in set((case.get("layouts") or {}).values())],
                      f"datum_depth:{min(depth, 4)}"])
     if outcome == "violation":
         foreign = first_foreign(exc)
